@@ -4,7 +4,7 @@
 set -e
 cd /verif/harness
 BUDGET=${1:-0.2}
-B=$(ls -d ~/.rustup/toolchains/nightly-*/lib/rustlib/x86_64-unknown-linux-gnu/bin | head -1)
+B=$(dirname $(ls ~/.rustup/toolchains/nightly-*/lib/rustlib/x86_64-unknown-linux-gnu/bin/llvm-profdata | head -1))
 RUSTFLAGS="-Cinstrument-coverage" CARGO_NET_OFFLINE=true cargo +nightly build --release --offline --target-dir target/cov --bin a5mon --bin worker 2>&1 | tail -1
 P=/verif/.work/prof; rm -rf $P; mkdir -p $P
 export VERIF_ROOT=/verif
